@@ -31,10 +31,52 @@ theorem small_never_faults (p : UInt8 → Bool) (mem : Mem) (base len : Nat) (hl
     three amd64 kernels in the working tree is the one the block model was written against -/
 theorem asm_shape : Gen.Asm.shape = Kern.expectedShape := eq_of_beq (by decide +kernel)
 
-/-- block geometries read off the shape -/
+/-- block geometries -/
 def sse16 : LoopP := ⟨16, 16, 16⟩
 def avx32 : LoopP := ⟨32, 32, 32⟩
 def avx64 : LoopP := ⟨64, 64, 64⟩
+
+/-! #### the geometries, read off the regenerated shape -/
+
+def group (sh : List (String × String × String × List (String × List Int))) (sym label : String) : List (String × List Int) :=
+  match sh.find? (fun g => g.2.1 == sym && g.2.2.1 == label) with
+  | some g => g.2.2.2
+  | none => []
+
+/-- the loop body: instructions up to the compare that closes the loop -/
+def body (ins : List (String × List Int)) : List (String × List Int) := ins.takeWhile (fun i => i.1 != "CMPQ")
+def countOf (ins : List (String × List Int)) (mn : String) : Nat := (ins.filter (fun i => i.1 == mn)).length
+/-- the immediate of the last `mn` instruction that has one -/
+def immOf (ins : List (String × List Int)) (mn : String) : Nat :=
+  match (ins.filter (fun i => i.1 == mn && i.2.length == 1)).getLast? with
+  | some i => (i.2.headD 0).toNat
+  | none => 0
+/-- `LEAQ -d(SI)(BX*1), …` : the distance of the last block from the end -/
+def lastOffOf (ins : List (String × List Int)) : Nat :=
+  match ins.find? (fun i => i.1 == "LEAQ" && (i.2.headD 0) < 0) with
+  | some i => (-(i.2.headD 0)).toNat
+  | none => 0
+
+/-- SSE loop of a kernel body: bytes per iteration (16 per `MOVOU`), step (`ADDQ $n, DI`), last-block offset -/
+def sseOf (sh : List (String × String × String × List (String × List Int))) (sym : String) : LoopP :=
+  ⟨16 * countOf (body (group sh sym "sseloop")) "MOVOU", immOf (body (group sh sym "sseloop")) "ADDQ", lastOffOf (group sh sym "sse")⟩
+/-- AVX2 loop of a kernel body: 32 bytes per `VMOVDQU` of one iteration -/
+def avxOf (sh : List (String × String × String × List (String × List Int))) (sym : String) : LoopP :=
+  ⟨32 * countOf (body (group sh sym "avx2_loop")) "VMOVDQU", immOf (body (group sh sym "avx2_loop")) "ADDQ", lastOffOf (group sh sym "avx2")⟩
+/-- the `len < 16` path: (`LEAQ n(SI)`, `TESTW $mask`) of label `small` and the displacement of the end-of-page load -/
+def smallOf (sh : List (String × String × String × List (String × List Int))) (sym : String) : Nat × Nat × Int :=
+  (immOf (group sh sym "small") "LEAQ", immOf (group sh sym "small") "TESTW",
+   ((group sh sym "endofpage").find? (fun i => i.1 == "MOVOU")).elim 0 (fun i => i.2.headD 0))
+
+/-- **extracted from the working tree**: every search body steps by exactly the width it loads and starts its last
+    block one width before the end (SSE 16, AVX2 32); every counting body likewise (SSE 16, AVX2 64); every `len < 16`
+    path tests `(base+16) & 0xff0` and loads the last 16 bytes at the end of a page -/
+theorem extracted_geometry :
+    (∀ sym ∈ ["indexbytebody", "indexbytebodyCase", "indexByteBodyNonASCII"],
+        sseOf Gen.Asm.shape sym = sse16 ∧ avxOf Gen.Asm.shape sym = avx32 ∧ smallOf Gen.Asm.shape sym = (16, 0xff0, -16)) ∧
+    (∀ sym ∈ ["countbody", "countbodyCase"],
+        sseOf Gen.Asm.shape sym = sse16 ∧ avxOf Gen.Asm.shape sym = avx64 ∧ smallOf Gen.Asm.shape sym = (16, 0xff0, -16)) := by
+  decide +kernel
 
 /-- every search loop (SSE 16-byte and AVX2 32-byte blocks, of `indexbytebody`, `indexbytebodyCase` and
     `indexByteBodyNonASCII`) returns the scalar definition and loads only bytes of the argument -/
@@ -61,6 +103,25 @@ theorem count_loops (P : LoopP) (hP : P = sse16 ∨ P = avx64) (p : UInt8 → Bo
     (by have : len + 1 ≤ (len + 1) * P.width := Nat.le_mul_of_pos_right _ hw
         simp only [Nat.add_zero]; omega) (by simp [cntBlk])
   simpa using h
+
+/-- the two loop theorems, stated for the geometry **extracted from the working tree**: whatever `Gen.Asm.shape` says the
+    SSE / AVX2 loop of a kernel body does (load width, step, last-block offset), a loop with that geometry returns the
+    scalar definition and never loads outside the argument -/
+theorem source_search_loops (sym : String) (hs : sym ∈ ["indexbytebody", "indexbytebodyCase", "indexByteBodyNonASCII"])
+    (P : LoopP) (hP : P = sseOf Gen.Asm.shape sym ∨ P = avxOf Gen.Asm.shape sym)
+    (p : UInt8 → Bool) (mem : Mem) (base len : Nat) (hlen : P.width ≤ len) :
+    (idxLoop P p mem base len (len + 1) 0).1 = specIndex p mem base len ∧
+    ∀ ld ∈ (idxLoop P p mem base len (len + 1) 0).2, base ≤ ld.1 ∧ ld.1 + ld.2 ≤ base + len := by
+  have hg := extracted_geometry.1 sym hs
+  exact search_loops P (by rcases hP with h | h; exact Or.inl (h.trans hg.1); exact Or.inr (h.trans hg.2.1)) p mem base len hlen
+
+theorem source_count_loops (sym : String) (hs : sym ∈ ["countbody", "countbodyCase"])
+    (P : LoopP) (hP : P = sseOf Gen.Asm.shape sym ∨ P = avxOf Gen.Asm.shape sym)
+    (p : UInt8 → Bool) (mem : Mem) (base len : Nat) (hlen : P.width ≤ len) :
+    (cntLoop P p mem base len (len + 1) 0 0).1 = specCount p mem base len ∧
+    ∀ ld ∈ (cntLoop P p mem base len (len + 1) 0 0).2, base ≤ ld.1 ∧ ld.1 + ld.2 ≤ base + len := by
+  have hg := extracted_geometry.2 sym hs
+  exact count_loops P (by rcases hP with h | h; exact Or.inl (h.trans hg.1); exact Or.inr (h.trans hg.2.1)) p mem base len hlen
 
 /-- the `len < 16` counting path: scalar definition, and no load can fault next to an unmapped page -/
 theorem count_small (p : UInt8 → Bool) (mem : Mem) (base len : Nat) (hlen : len < 16) :
